@@ -406,7 +406,7 @@ class Gen:
         elif k == 9:
             s = self.assign(d) + " " + self.simple(d + 1) if d < 3 else self.assign(d)
         elif k == 10:
-            s = "printf %s %s" % (pick(r, ["'%d'", "'%5s'", "'%-*s'", "'%.*f'", "'%x'", "'%c'", "'%b'", "'%q'", "'%(%Y)T'", "'%99999999999d'", "'%*d'", "'%.99999999999s'", "'%n'", "'%'", "'%5$s'", "-v x '%s'", "'%u'", "'%e'"]), " ".join(pick(r, [self.num(), w()]) for _ in range(r.randrange(0, 3))))
+            s = "printf %s %s" % (pick(r, ["'%d'", "'%5s'", "'%-*s'", "'%.*f'", "'%x'", "'%c'", "'%b'", "'%q'", "'%(%Y)T'", "'%999d'", "'%*d'", "'%.999s'", "'%n'", "'%'", "'%5$s'", "-v x '%s'", "'%u'", "'%e'"]), " ".join(pick(r, [str(r.randrange(-9, 40)), w()]) for _ in range(r.randrange(0, 3))))
         elif k == 11:
             s = "%s %s" % (pick(r, ["shift", "return", "break", "continue", "let", "getopts ab: o", "local x", "unset", "unset -v", "unset -f", "readonly", "export",
                                     "set --", "set -o", "set +o", "shopt -s", "shopt -u", "alias", "unalias", "hash", "pushd", "popd", "dirs", "cd", "eval", "source", ".",
@@ -465,11 +465,11 @@ class Gen:
         if k == 10:
             return "for v in %s; do %s; done" % (" ".join(self.word(d + 1) for _ in range(r.randrange(0, 4))), c())
         if k == 11:
-            return "for ((i=%s; i<%s; i++)); do %s; done" % (pick(r, ["0", "1", "-1"]), pick(r, ["0", "2", "3"]), c())
+            return "for ((i%d=%s; i%d<%s; i%d++)); do %s; done" % (d, pick(r, ["0", "1", "-1"]), d, pick(r, ["0", "2", "3"]), d, c())
         if k == 12:
-            return "n=0; while [ $n -lt %d ]; do n=$((n+1)); %s; done" % (r.randrange(0, 3), c())
+            return "n%d=0; while [ $n%d -lt %d ]; do n%d=$((n%d+1)); %s; done" % (d, d, r.randrange(0, 3), d, d, c())
         if k == 13:
-            return "n=0; until [ $n -ge %d ]; do n=$((n+1)); %s; done" % (r.randrange(0, 3), c())
+            return "n%d=0; until [ $n%d -ge %d ]; do n%d=$((n%d+1)); %s; done" % (d, d, r.randrange(0, 3), d, d, c())
         if k == 14:
             return "case %s in %s) %s;; %s) %s%s *) %s;; esac" % (self.word(d + 1), pick(r, ["a", "*", "?", "[a-z]*", "a|b", "@(a|b)", "''", "é"]), c(),
                                                                  pick(r, ["b", "x*", "\"$x\"", "+([0-9])"]), c(), pick(r, [";;", ";&", ";;&"]), c())
@@ -593,6 +593,25 @@ def too_big(s):
     return False
 
 
+# here-documents, including the empty quoted tag on which the tokenizer loops (reported by the C19 builder)
+HEREDOCS = ["cat <<'' ", "<<'' ", 'cat <<"" ;x\t', "cat <<''\n\n", "cat <<-'' ", "cat <<''", "cat << '' \nx\n\n", 'cat <<""\nabc\n\n',
+            "cat <<E\nx", "cat <<'E'", "cat <<-\tE\n\tx\n\tE", "cat <<E <<F\na\nE\nb\nF", "cat <<\\E\n$x\nE", "cat <<E;echo y\nx\nE"]
+
+
+# witnesses of every recorded finding: always part of the exploration, so that a defect that comes back is seen
+WITNESSES = [
+    "echo {-9223372036854775807..-9223372036854775808..2}", "echo {1..99999999999999999999}",
+    "echo {0..-9223372036854775807..9223372036854775807}", "echo {b..a..200}", "echo {b..a..4294967296}",
+    "x=abcd; echo ${x:2:-5}", "declare -i x=9223372036854775807; x+=1; echo $x",
+    "declare -ia a; a[0]=9223372036854775807; a[0]+=1", "declare -iA a; a[k]=9223372036854775807; a[k]+=1",
+    "a=([18446744073709551615]=x y)", "declare -c x; x=éa; echo $x", "echo ~99999999999999999999999", "echo ~-99999999999999999999999",
+    "HISTFILE=/dev/null; history -c; history -s a; history 99999", "echo 4294967296>/dev/null", "echo hi 99999999999>&2",
+    "PS1='\\D{%Q}'; echo \"${PS1@P}\"", "HISTFILE=/dev/null; history -c; HISTTIMEFORMAT='%Q '; history -s a; history",
+    "case x in x) " * 24 + "case x x) " + "echo x " + ";; esac " * 25,
+]
+WITNESSES_PROC = ["(( 08 )) &\nwait\nwait", "echo ${x:?} &\nwait\nwait; echo $?", "cat <<'' "]
+
+
 def scripts(rng, scale):
     """-> (in-process [(script, opts)], process-level [script])"""
     inproc, procs = [], []
@@ -603,9 +622,13 @@ def scripts(rng, scale):
     for d in (1, 2, 3, 8, 16, 32, 48, 63, 64):
         for _ in range(3):
             base.append(nest(rng, d))
+    base += HEREDOCS
     for s in base:
         if not too_big(s):
             inproc.append((s, pick(rng, ["", "", "", "interactive", "posix", "sh"])))
+    for s in WITNESSES:
+        inproc.append((s, "interactive,noenv" if "history" in s else ""))
+    procs += WITNESSES + WITNESSES_PROC
     muts = 0
     while muts < 900 * scale:
         s = mutate(rng, pick(rng, base))
@@ -637,6 +660,7 @@ def editor_lines(rng, scale):
             s = mutate(rng, s)
         if len(s) <= 160:
             lines.append(s)
+    lines += HEREDOCS[:6]
     lines += ["", " ", "é", "echo é", "echo 'é", "echo \"$(é", "$", "${", "$((", "a=(", "echo ~", "echo {1..", "<<", "cat <<E", "x=é€😀 echo", "ec\tho",
               "echo \\", "if", "for", "case x in", "f() {", "echo $'\\", "echo ${x:", "echo ${x/", "[[ a =~ ", "(( 1 +", "a | ", "a && ", "! ", "echo >", "echo >&", " ", "😀😀"]
     for d in (8, 32, 64):
